@@ -256,7 +256,8 @@ def gen_case(seed, tier, prop="C11"):
     loop = LoopConfig(eager=rng.random() < 0.3, cap=8000, p_late=rng.choice([0, 0, 0.2]),
                       p_stall=rng.choice([0, 0, 0.05])).to_json()
     return {"engine": "conds", "prop": "C11", "tasks": tasks, "ext": ext, "nev": nev, "loop": loop,
-            "own_lock": rng.random() < 0.3, "sched_seed": rng.getrandbits(32), "outside": rng.random() < 0.2}
+            "own_lock": rng.random() < 0.3, "sched_seed": rng.getrandbits(32), "outside": rng.random() < 0.2,
+            "explicit": rng.random() < 0.3}
 
 
 class CondRun:
@@ -455,7 +456,20 @@ class CondRun:
 
     async def do_with(self, tid, inner):
         cond = self.cond
+        if self.case.get("explicit"):
+            # the same critical section through acquire() / release() instead of `async with`
+            await cond.acquire()
+            try:
+                await self.critical(tid, inner)
+            finally:
+                cond.release()
+            return
         async with cond:
+            await self.critical(tid, inner)
+
+    async def critical(self, tid, inner):
+        cond = self.cond
+        if True:
             self.holder = tid
             self.ever_held.add(tid)
             self.h.rec("locked", tid)
